@@ -317,6 +317,48 @@ def rule_support(ctx: Ctx):
                       f.key, f"return {xshow(p.value, p.events)}")
 
 
+def _self_stores(ctx: Ctx, fn):
+    got = {}
+    for p in ctx.paths(fn, inline=None, exc_edges="none"):
+        if p.kind == "raise":
+            continue
+        for e in p.of("store"):
+            if show(e.term.value) == "self" and e.x.get("attr"):
+                got.setdefault(e.x["attr"], xshow(e.x["value"], p.events))
+    return got
+
+
+def rule_plumbing(ctx: Ctx):
+    """C02.view (plumbing): the objects the view is read from carry what they were given."""
+    rep = ctx.rep
+    ti = ctx.fn("Transition.__init__")
+    got = _self_stores(ctx, ti)
+    for a in ("source", "target", "internal"):
+        rep.check(got.get(a) == a, "C02.view", ti.loc(), f"a Transition keeps the `{a}` it was declared with", ti.key, f"self.{a} = {got.get(a)}")
+    td = ctx.fn("TriggerData.__post_init__")
+    got = _self_stores(ctx, td)
+    rep.check(got.get("model") == "self.machine.model", "C02.view", td.loc(), "the trigger's `model` is the machine's model", td.key, f"self.model = {got.get('model')}")
+    for nm, want in (("args", "self.trigger_data.args"), ("event", "self.trigger_data.event")):
+        f = ctx.p.find_fn(f"EventData.{nm}")
+        if f is None:
+            raise AnalysisError(f"anchor lost: EventData.{nm}")
+        rep.note_fn(f)
+        for p in ctx.paths(f, inline=None, exc_edges="none"):
+            rep.check(p.kind == "return" and xshow(p.value, p.events) == want, "C02.view", f.loc(), f"EventData.{nm} is the triggering call's {nm}", f.key,
+                      f"return {xshow(p.value, p.events)}")
+    ec = ctx.fn("Event.__call__")
+    for p in ctx.paths(ec, inline=None, exc_edges="none"):
+        for e in p.calls():
+            if e.x["callee"] and "ctor:TriggerData" in e.x["callee"].tags:
+                kw = {k.arg: show(k.value) for k in e.term.keywords}
+                rep.check(kw.get("machine") == "self._sm" and kw.get("event") == "self", "C02.view", e.loc(),
+                          "the trigger records this event and the machine it is bound to", ec.key, norm_stmt(e.node))
+    si = ctx.fn("CallbackSpec.__init__")
+    got = _self_stores(ctx, si)
+    for a in ("func", "group", "priority", "is_convention"):
+        rep.check(got.get(a) == a, "C02.keys", si.loc(), f"a callback spec keeps its `{a}`", si.key, f"self.{a} = {got.get(a)}")
+
+
 def rule_providers(ctx: Ctx):
     """C02.providers: callbacks of machine, model and listeners are all attached through the same path."""
     from . import c12
@@ -549,4 +591,4 @@ def rule_once(ctx: Ctx, rule: str = "C02.once"):
     rep.floor(rule, "wrapper insertions", n, 1)
 
 
-RULES = [rule_order, rule_view, rule_keys, rule_support, rule_scope, rule_initial, rule_once, rule_providers]
+RULES = [rule_order, rule_view, rule_plumbing, rule_keys, rule_support, rule_scope, rule_initial, rule_once, rule_providers]
